@@ -190,6 +190,24 @@ def run(ck, F):
                      f'`{contracts.render(v2, st2, {})[:80]}`, not a node allocated by this request: two calls of a generative constructor '
                      'yield the same node', loc=g['loc'], fn=g['id'])
 
+    # what the client hands over as a plain value is copied, not aliased
+    R3c = ck.rule('C05.client-values-copied', 'a member of an implementation class whose type is one of the interface\'s plain value structs '
+                  '(aggregates the client fills in itself: source and unit locations, ...) holds the value, not a reference or pointer to the '
+                  'client\'s object: what a node reports does not change when the client reuses that object, and does not dangle when it dies', floor=3)
+    for n_, rec_ in sorted(F.rec.items()):
+        if not n_.startswith(('ipr::impl::', 'ipr::cxx_form::impl::')) or rec_.get('lambda'):
+            continue
+        for fl in rec_['fields']:
+            base = fl['t'].replace('const ', '').strip().rstrip('&* ').strip()
+            R_ = F.rec.get(base)
+            if R_ is None or not base.startswith('ipr::') or base.startswith(('ipr::impl::', 'ipr::util::', 'ipr::cxx_form::impl::')) \
+                    or not R_.get('aggregate') or R_.get('polymorphic') or not R_['fields'] and not R_.get('bases'):
+                continue
+            byref = bool(fl.get('ref')) or fl['t'].rstrip().endswith('*')
+            ck.check(R3c, f'{contracts.short(n_)}::{fl["name"]}', not byref,
+                     f'{n_}::{fl["name"]} is a `{fl["t"]}`: it designates the {contracts.short(base)} object the client passed in instead of '
+                     'holding a copy of it', loc=f'{rec_["loc"].split(":")[0]}:{fl.get("ln", 0)}')
+
     # ---------------------------------------------------------------- const-only interface
     R4 = ck.rule('C05.const-interface', 'every member function of an interface class is const and no interface class has mutable or '
                  'public non-const data: nothing observable can be changed through the interface', floor=150)
